@@ -139,8 +139,12 @@ impl SortedWritesTable {
 
         if parallelize_rebuild(to_scan.size()) {
             WrappedTableRef::with_wrapper(self, |wrapped| {
+            #[cfg(feature = "verif-hooks")]
+            egglog_concurrency::verif::probe("rebuild_incremental_parallel");
                 let ids = buf.iter().map(|(_, row)| row[0]).collect::<Vec<_>>();
                 parallel::map(&ids, |_, id| {
+                    #[cfg(feature = "verif-hooks")]
+                    egglog_concurrency::verif::yield_point(egglog_concurrency::verif::site::REBUILD_CHUNK);
                     let mut mutation_buf = self.new_buffer();
                     let mut exec_state = exec_state.clone();
                     let mut changed = false;
@@ -163,6 +167,8 @@ impl SortedWritesTable {
                 .any(|changed| changed)
             })
         } else {
+            #[cfg(feature = "verif-hooks")]
+            egglog_concurrency::verif::probe("rebuild_incremental_serial");
             let mut scratch = TaggedRowBuffer::new(self.n_columns);
             let mut changed = false;
             for (_, id) in buf.iter() {
@@ -197,7 +203,11 @@ impl SortedWritesTable {
         if parallelize_rebuild(self.data.next_row().index()) {
             let max_row = self.data.next_row().index();
             let starts = (0..max_row).step_by(STEP_SIZE).collect::<Vec<_>>();
+            #[cfg(feature = "verif-hooks")]
+            egglog_concurrency::verif::probe("rebuild_nonincremental_parallel");
             parallel::map(&starts, |_, start| {
+                #[cfg(feature = "verif-hooks")]
+                egglog_concurrency::verif::yield_point(egglog_concurrency::verif::site::REBUILD_CHUNK);
                 let mut mutation_buf = self.new_buffer();
                 let mut buf = TaggedRowBuffer::new(self.n_columns);
                 let mut exec_state = exec_state.clone();
@@ -227,6 +237,8 @@ impl SortedWritesTable {
             let mut changed = false;
 
             let max_row = self.data.next_row().index();
+            #[cfg(feature = "verif-hooks")]
+            egglog_concurrency::verif::probe("rebuild_nonincremental_serial");
             for start in (0..max_row).step_by(STEP_SIZE) {
                 rebuilder.rebuild_buf(
                     &self.data.data,
@@ -252,6 +264,10 @@ impl SortedWritesTable {
 }
 
 fn incremental_rebuild(uf_size: usize, table_size: usize, parallel: bool) -> bool {
+    #[cfg(feature = "verif-hooks")]
+    if let Some(v) = egglog_concurrency::verif::knob("table_incremental_rebuild") {
+        return v != 0;
+    }
     if parallel {
         table_size > 10_000 && uf_size * 8192 <= table_size
     } else {
